@@ -53,14 +53,24 @@ def c05(chk):
                 "recorded tree, value, context and call log must be the specification's")
 
 
+def ast_model(chk, siblings, workers=12):
+    info, summ = vf.run_model(f"ast_{siblings}", "MC_Ast.tla", {"Siblings": siblings}, chk.outdir, workers=workers, timeout=3000)
+    chk.add_model(info, summ, {"wf_tree", "panic"}, ["wf_len3"],
+                  note=f"MC_Ast.tla: ASTs of depth <= 2 over all 25 operators and application (siblings: {siblings}) x 3 renderings")
+
+
 def c02(chk):
     chk.rule = ("token sequences over the operator alphabets, classified WF by Grammar.tla; "
                 "non-trivial = distinct well-formed sequences of at least three tokens")
     rel = {"wf_tree", "panic"}
     if chk.tier == "quick":
+        ast_model(chk, "few")
+        ast_model(chk, "cater")
         tokens(chk, "ops", 4, rel, ["wf_len3"])
         tokens(chk, "core", 4, rel, ["wf_len3"])
     else:
+        ast_model(chk, "all", workers=16)
+        ast_model(chk, "cater", workers=16)
         tokens(chk, "ops", 5, rel, ["wf_len3"], workers=16)
         tokens(chk, "core", 6, rel, ["wf_len3"], workers=16, timeout=3000)
         tokens(chk, "assign", 5, rel, ["wf_len3"], workers=16)
